@@ -940,6 +940,31 @@ def sink_unsafe(doc, log):
         log.append("unsafe blocks produced by inlining sunk to the innermost block holding their unchecked operations: %d steps" % n_sunk[0])
 
 
+# ----------------------------------------------------------------------------------------------
+# 8. `(lo..=hi).contains(&x)` is `x >= lo && x <= hi` (RangeInclusive::contains is defined as exactly that, NaN included)
+
+
+def range_contains(doc, log):
+    def rw(n):
+        if isinstance(n, list):
+            return [rw(x) for x in n]
+        if not isinstance(n, dict):
+            return n
+        n = {k: (rw(v) if isinstance(v, (dict, list)) else v) for k, v in n.items()}
+        if n.get("k") == "mcall" and n.get("name") == "contains" and isinstance(n.get("recv"), dict) and n["recv"].get("k") == "range" \
+                and n["recv"].get("lo") is not None and n["recv"].get("hi") is not None and len(n.get("args") or []) == 1 \
+                and isinstance(n["args"][0], dict) and n["args"][0].get("k") == "ref" and not n["args"][0].get("mut"):
+            x = n["args"][0]["e"]
+            ln = n.get("ln", 0)
+            log.append("range test at line %s rewritten as two comparisons" % ln)
+            return {"k": "bin", "op": "&&", "ln": ln,
+                    "l": {"k": "bin", "op": ">=", "l": copy.deepcopy(x), "r": n["recv"]["lo"], "ln": ln},
+                    "r": {"k": "bin", "op": "<=" if n["recv"].get("incl") else "<", "l": copy.deepcopy(x), "r": n["recv"]["hi"], "ln": ln}}
+        return n
+    for fl in doc["files"]:
+        fl["items"] = rw(fl["items"])
+
+
 def normalise(doc):
     log = []
     canonical_fields(doc, log)
@@ -947,6 +972,7 @@ def normalise(doc):
     for fl in doc["files"]:
         fl["items"] = option_match_to_iflet(fl["items"])
         continue_guards(fl["items"])
+    range_contains(doc, log)
     try_helpers(doc, log)
     inline_helpers(doc, log)
     inline_expr_helpers(doc, log)
